@@ -163,12 +163,15 @@ def evaluate(run, cases, mods, fixed_f8):
             res = r[prov]
             if "error" in res:
                 continue
-            gx, gy, meff, mpts, margins = m
+            gx, gy, meff, mpts, margins, ninst = m
             where = f"{prov} frame {fid} (is_rgb={c['is_rgb']}, {c['channels']}-channel frames)"
             preds = res["per_frame"].get(fid, [])
             rec = res["log"][fid] if fid < len(res["log"]) else None
-            if len(preds) != 1 or rec is None:
-                diffs.append(f"{where}: {len(preds)} instances / no network call")
+            want = P.si_instances_model(ninst, c.get("refinement"))
+            if len(preds) != want or rec is None:
+                diffs.append(f"{where}: {len(preds)} instances (model {want}) / no network call")
+                continue
+            if want == 0:                      # frame without a detected node in the tree repaired for C12 F62: no instance
                 continue
             pts, vals, _ = preds[0]
             p = c["frames"][fid][0]["kps"][0] if c["frames"][fid] else None
